@@ -1,13 +1,15 @@
-(* C13: refutations of the unrestricted statement (D8 fine conversions, D9 off-grid zones, N1 the
-   same specifier twice, N2 %% before r R T X Q) and a concrete libc-like oracle showing that the
-   hypotheses H1-H3 / zone_gmt / zone_ok of the main theorems are satisfiable together. *)
+(* C13: the pinned earlier behaviour (model flag strict = false) next to the repaired one (strict =
+   true) for D8 fine conversions, N3 glibc flag forms and N1 the same specifier twice; refutations
+   of the unrestricted statement that still stand (D9 off-grid zones, N2 %% before r R T X Q); and
+   a concrete libc-like oracle showing that the hypotheses H1-H3 / zone_gmt / zone_ok of the main
+   theorems are satisfiable together. *)
 From Coq Require Import List NArith ZArith Bool Arith Lia.
-From Quill Require Import Time.TimeModel Time.TimeSpec Time.TimeStrings Time.TimeInit Time.TimeDigits Time.TimeProofs Time.TimeTF.
+From Quill Require Import Time.TimeModel Time.TimeSpec Time.TimeStrings Time.TimeStrict Time.TimeInit Time.TimeDigits Time.TimeProofs Time.TimeTF.
 Import ListNotations.
 
 Ltac Zify.zify_post_hook ::= Z.to_euclidean_division_equations.
 
-(* ---------------------------------------------------------------- D8: fine conversions go stale *)
+(* ---------------------------------------------------------------- D8: fine conversions *)
 (* c  Ec  EX  OH  OM  OS  OI *)
 Definition fine_bodies : list str := [[99]; [69;99]; [69;88]; [79;72]; [79;77]; [79;83]; [79;73]]%N.
 
@@ -27,12 +29,12 @@ Proof.
   cbn [idxs pre]. rewrite (safe_strf_ne strf p t1 Hp). reflexivity.
 Qed.
 
-(* whatever libc is: if the conversion's text differs between two instants of one recalculation
-   window, the second rendering is the first one's and so differs from strftime *)
+(* pinned (strict = false), whatever libc is: if the conversion's text differs between two instants
+   of one recalculation window, the second rendering is the first one's and so differs from strftime *)
 Lemma fine_refuted strf sodf local b t1 t2 : In b fine_bodies ->
   (0 <= t1 <= t2)%Z -> (t2 < next_recalc local t1)%Z ->
   strf (37%N :: b) t1 <> strf (37%N :: b) t2 ->
-  exists st, sft_init (37%N :: b) = Some st /\
+  exists st, sft_init false (37%N :: b) = Some st /\
              nth 1 (sft_run strf sodf local st [t1; t2]) [] <> strf (37%N :: b) t2.
 Proof.
   intros Hb Ht Hn Hd. cbn [fine_bodies In] in Hb.
@@ -42,16 +44,59 @@ Proof.
   destruct Hb.
 Qed.
 
+(* repaired (strict = true): init throws *)
+Lemma fine_rejected b : In b fine_bodies -> sft_init true (37%N :: b) = None.
+Proof.
+  intros Hb. cbn [fine_bodies In] in Hb. repeat (destruct Hb as [<-|Hb]; [reflexivity|]). destruct Hb.
+Qed.
+
 (* a concrete witness (toy oracle: every format renders the decimal instant) *)
 Definition toy_strf (f : str) (t : Z) : str := dec (Z.to_N t).
 Example fine_witness :
-  match sft_init [37;99]%N with
+  match sft_init false [37;99]%N with
   | Some st => sft_run toy_strf (fun _ => 0%N) false st [1000000000; 1000000005]%Z
                = [toy_strf [37;99]%N 1000000000; toy_strf [37;99]%N 1000000000]
                /\ toy_strf [37;99]%N 1000000000 <> toy_strf [37;99]%N 1000000005
   | None => False
   end.
 Proof. vm_compute. split; [reflexivity|discriminate]. Qed.
+
+(* ---------------------------------------------------------------- N3: glibc flag forms *)
+(* one of - _ 0 ^ # before one of H M S I k l s r R T c, e.g. %-H %_M %0S %^I %#k *)
+Definition flag_chars : list N := [45;95;48;94;35]%N.
+Definition time_letters : list N := [72;77;83;73;107;108;115;114;82;84;99]%N.
+Definition flagged_bodies : list str := flat_map (fun f => map (fun c => [f; c]) time_letters) flag_chars.
+
+(* pinned (strict = false): the flagged conversion is one cached part and goes stale like D8 *)
+Lemma flagged_refuted strf sodf local b t1 t2 : In b flagged_bodies ->
+  (0 <= t1 <= t2)%Z -> (t2 < next_recalc local t1)%Z ->
+  strf (37%N :: b) t1 <> strf (37%N :: b) t2 ->
+  exists st, sft_init false (37%N :: b) = Some st /\
+             nth 1 (sft_run strf sodf local st [t1; t2]) [] <> strf (37%N :: b) t2.
+Proof.
+  intros Hb Ht Hn Hd. vm_compute in Hb.
+  repeat (destruct Hb as [<-|Hb];
+    [eexists; split; [vm_compute; reflexivity|];
+     rewrite stale_single; [exact Hd|discriminate|reflexivity|exact Ht|exact Hn]|]).
+  destruct Hb.
+Qed.
+
+(* repaired (strict = true): any run of flags / width digits / E / O before a time-of-day letter
+   (or before c), and c alone, make init throw; around it any tokens *)
+Lemma flagged_rejected_gen items p c :
+  Forall tok_item items -> Forall (fun x => memN x skip_chars = true) p ->
+  (c = 99%N \/ (p <> [] /\ memN c time_chars = true)) ->
+  In (Conv (p ++ [c])) items -> sft_init true (flat items) = None.
+Proof.
+  intros T Hp Hc Hin. eapply sft_init_fine; eauto. unfold fine_conv. rewrite last_snoc, app_length.
+  destruct Hc as [->|[Hne Hc]]; [reflexivity|]. rewrite Hc, andb_true_r.
+  destruct p as [|x p]; [congruence|]. cbn [length Nat.add]. destruct (length p + 1) eqn:E; [lia|]. cbn. apply orb_true_r.
+Qed.
+
+Lemma flagged_rejected b : In b flagged_bodies -> sft_init true (37%N :: b) = None.
+Proof.
+  intros Hb. vm_compute in Hb. repeat (destruct Hb as [<-|Hb]; [reflexivity|]). destruct Hb.
+Qed.
 
 (* ---------------------------------------------------------------- D9: a zone off the quarter-hour grid *)
 (* offset 0 until t = 960 (= 60 mod 900), one hour afterwards *)
@@ -73,30 +118,35 @@ Qed.
 
 Lemma offgrid_refuted :
   H2 d9_strf d9_sodf d9_off /\ ~ zone_ok d9_off (fun _ => 0%Z) /\
-  exists st, sft_init m_H = Some st /\
+  forall strict, exists st, sft_init strict m_H = Some st /\
     sft_run d9_strf d9_sodf true st [900; 960]%Z = [[48;48]; [48;48]]%N /\
     d9_strf m_H 960 = [48;49]%N.
 Proof.
   split; [exact d9_H2|]. split; [exact d9_not_zone_ok|].
-  eexists. split; [vm_compute; reflexivity|]. split; vm_compute; reflexivity.
+  intros []; (eexists; split; [vm_compute; reflexivity|]; split; vm_compute; reflexivity).
 Qed.
 
 (* ---------------------------------------------------------------- N1: the same specifier twice *)
+(* pinned (strict = false): accepted, the second one reaches strftime as text;
+   repaired (strict = true): the constructor throws *)
 Lemma same_spec_refuted :
-  exists x b, tf_init (spec_name Qms ++ spec_name Qms) = inl x /\ tp2 x = Some b /\ tfmt b = spec_name Qms.
+  exists x b, tf_init false (spec_name Qms ++ spec_name Qms) = inl x /\ tp2 x = Some b /\ tfmt b = spec_name Qms.
 Proof. eexists. eexists. vm_compute. repeat split. Qed.
 
+Lemma same_spec_rejected k : tf_init true (spec_name k ++ spec_name k) = inr ErrExclusive.
+Proof. destruct k; reflexivity. Qed.
+
 (* ---------------------------------------------------------------- N2: %% before r R T X Q *)
-Lemma pct_refuted :
+Lemma pct_refuted : forall strict,
   (* "%%T" is split as "%" "%H" ":" "%M" ":" "%S" *)
-  (exists st, sft_init [37;37;84]%N = Some st /\ parts st = [[37]; m_H; [58]; m_M; [58]; m_S]%N) /\
+  (exists st, sft_init strict [37;37;84]%N = Some st /\ parts st = [[37]; m_H; [58]; m_M; [58]; m_S]%N) /\
   (* "%%X" is rejected *)
-  tf_init [37;37;88]%N = inr ErrX /\
+  tf_init strict [37;37;88]%N = inr ErrX /\
   (* "%%Qms": the first part is "%" and the specifier is taken *)
-  (exists x, tf_init (37%N :: spec_name Qms) = inl x /\ tspec x = Some Qms /\ tfmt (tp1 x) = [37%N]).
+  (exists x, tf_init strict (37%N :: spec_name Qms) = inl x /\ tspec x = Some Qms /\ tfmt (tp1 x) = [37%N]).
 Proof.
-  split; [eexists; vm_compute; split; reflexivity|]. split; [reflexivity|].
-  eexists. vm_compute. repeat split.
+  intros []; (split; [eexists; vm_compute; split; reflexivity|]; split; [reflexivity|];
+    eexists; vm_compute; repeat split).
 Qed.
 
 (* ---------------------------------------------------------------- the hypotheses are satisfiable *)
